@@ -79,6 +79,8 @@ def stale_only_cleanup(P, k, genf, gen_call, c2, fsreach, hit_blocks=None):
         t = k.describe_origin(o, short=True, deep=6)
         if short_path(genf.id) in t or genf.id.split("::")[-1] + "(" in t:
             passed = True
+        elif short_path(genf.id) in k.feeding_calls(a, depth=8):
+            passed = True        # handed on through a step helper's return slot
     if not passed:
         return False, "it does not receive the generating function's result"
     # (b)
